@@ -290,7 +290,10 @@ class Switch(Generic[R], GenerativeFunction[R]):
         retval: R = Diff.tree_primal(retdiff)
 
         if Diff.tree_tangent(idx_diff) == UnknownChange:
-            weight += score - trace.get_score()
+            # A fresh trace was simulated for the selected branch and then edited:
+            # the inner weight is relative to that throw-away trace.  The move's
+            # weight is relative to the trace we were given.
+            weight = score - trace.get_score()
 
         # TODO: this is totally wrong, fix in future PR.
         bwd_request: Update = rets[0][3]
